@@ -48,6 +48,24 @@ theorem checkers_exact (b : Board) (hb : Consistent b) (s : Sq) :
         (((abs b.r).get s).any (fun m => m.color == b.r.side.inv) && Spec.attacks (abs b.r) s k) :=
   checkers_eq b hb s
 
+/-- the early-out query and the set query are the same question, on every board (no hypothesis): `is_cell_attacked`
+is true exactly when `cell_attackers` is non-empty -/
+theorem is_cell_attacked_eq_attackers (b : Board) (t : Sq) (c : Color) :
+    isCellAttacked b t c = (cellAttackers b t c).nonEmpty := isCellAttacked_eq b t c
+
+/-- `is_check` is true exactly when `checkers` is non-empty, on every board (both panic together when the king is absent) -/
+theorem is_check_eq_checkers (b : Board) : isCheck? b = (checkers? b).map BB.nonEmpty := by
+  unfold isCheck? checkers?
+  cases b.kingPos? b.r.side with
+  | none => rfl
+  | some k => simp [isCellAttacked_eq]
+
+/-- so on a consistent board `is_check` holds iff some man is reported as a checker -/
+theorem is_check_iff_exists_checker (b : Board) (bb : BB) (h : checkers? b = some bb) :
+    isCheck? b = some true ↔ ∃ s : Sq, bb.has s = true := by
+  rw [is_check_eq_checkers, h]
+  simp [nonEmpty_iff]
+
 /-! non-vacuity: in the initial position nothing attacks e4 for Black, and White's d2/f2 pawns… attack e3 -/
 example : isCellAttacked (buildBoard C04.initialRaw) ⟨44, by decide⟩ .white = true := by decide +kernel
 example : Spec.attackedBy (abs C04.initialRaw) ⟨44, by decide⟩ .white = true := by decide +kernel
